@@ -817,6 +817,264 @@ pub fn real_startup_cases(out: &mut Outcome, thorough: bool) -> (u64, Vec<serde_
     (n, samples)
 }
 
+//------------ (e) the real loop against the stand-in ------------------------
+
+/// What a drained world looks like: canonical state and queue.
+fn drained_view(w: &World) -> serde_json::Value {
+    json!({
+        "state": crate::fingerprint::canonical(w),
+        "queue": crate::fingerprint::queue_json(w),
+    })
+}
+
+/// Scenarios that leave work in the queue; between them they make tasks end
+/// in all three ways (done, follow-up, reschedule).
+fn loop_scenarios(thorough: bool) -> Vec<(&'static str, Vec<Op>)> {
+    let c = || "ca".to_string();
+    let p = || "parent".to_string();
+    let day = Op::Tick { secs: 86_400 + 60 };
+    let mut v = vec![
+        ("roa-added", vec![Op::Roa { ca: c(), add: vec![c01::ROA_A.into()], del: vec![] }]),
+        ("entitlement-shrunk", vec![
+            Op::Roa { ca: c(), add: vec![c01::ROA_A.into(), c01::ROA_C.into()], del: vec![] },
+            Op::Entitle { parent: p(), child: c(), res: crate::ops::r3("AS65000", "10.0.0.0/16", "") },
+        ]),
+        ("publisher-removed", vec![
+            Op::RemovePublisher { publisher: c() },
+            Op::Roa { ca: c(), add: vec![c01::ROA_A.into()], del: vec![] },
+        ]),
+        ("a-day-later", vec![day.clone()]),
+        ("child-removed-a-day-later", vec![Op::RemoveChild { parent: p(), child: c() }, day.clone()]),
+        ("roll-started", vec![Op::RollInit { ca: c() }]),
+    ];
+    if thorough {
+        v.push(("publisher-removed-a-day-later", vec![
+            Op::RemovePublisher { publisher: c() },
+            Op::Roa { ca: c(), add: vec![c01::ROA_B.into()], del: vec![] },
+            day.clone(),
+        ]));
+        v.push(("shrunk-and-rolling", vec![
+            Op::Roa { ca: c(), add: vec![c01::ROA_A.into(), c01::ROA_C.into()], del: vec![] },
+            Op::RollInit { ca: c() },
+            Op::Entitle { parent: p(), child: c(), res: crate::ops::r3("AS65000", "10.0.0.0/16", "") },
+        ]));
+        v.push(("suspended-child-a-day-later", vec![
+            Op::Suspend { parent: p(), child: c() },
+            Op::Roa { ca: c(), add: vec![c01::ROA_A.into()], del: vec![] },
+            day.clone(),
+        ]));
+        v.push(("parent-rolls-child-changes", vec![
+            Op::RollInit { ca: p() },
+            Op::Roa { ca: c(), add: vec![c01::ROA_D.into()], del: vec![] },
+            Op::AspaSet { ca: c(), customer: 65000, providers: vec![65001] },
+        ]));
+    }
+    v
+}
+
+/// One scenario, in a forked child whose directory is private: builds the
+/// state, then drains it twice from the same point - once with the stand-in
+/// (`verif_step`, what every world-based check uses) and once with the real
+/// `scheduler::run` loop on its own thread - and writes both views.
+fn loop_scenario_child(ops: &[Op], outf: &std::path::Path) {
+    use std::io::Write;
+    let res: Result<serde_json::Value, String> = (|| {
+        let mut w = c01::build_w3(c01::world_cfg(100, 90))?;
+        w.restart().map_err(|e| e.to_string())?;
+        w.pump()?;
+        w.settle()?;
+        for op in ops {
+            let o = w.apply(op);
+            if !o.ok {
+                return Err(format!("set-up op {op} failed: {:?}", o.err));
+            }
+        }
+        let due_before: Vec<String> = w
+            .pending_tasks()
+            .into_iter()
+            .filter(|t| (t.0 as i128) <= clock::now_millis())
+            .map(|t| t.1)
+            .collect();
+        let here = std::env::current_dir().map_err(|e| e.to_string())?;
+        let mut views = Vec::new();
+        let mut results_a = serde_json::Value::Null;
+        for twin in ["stand-in", "real-loop"] {
+            let dir = here.with_file_name(format!(
+                "{}-{twin}",
+                here.file_name().unwrap().to_string_lossy()
+            ));
+            let vf = dir.with_extension("json");
+            let _ = std::io::stdout().flush();
+            let pid = unsafe { libc::fork() };
+            if pid == 0 {
+                let r = std::panic::catch_unwind(std::panic::AssertUnwindSafe(|| -> Result<serde_json::Value, String> {
+                    crate::e3::copy_dir(&here, &dir).map_err(|e| e.to_string())?;
+                    std::env::set_current_dir(&dir).map_err(|e| e.to_string())?;
+                    let mut ends: BTreeMap<String, u64> = BTreeMap::new();
+                    if twin == "stand-in" {
+                        let started = krill::api::ca::Timestamp::now();
+                        let mut n = 0;
+                        loop {
+                            match krill::server::scheduler::verif_step(&w.slow, started) {
+                                krill::server::scheduler::VerifStepOutcome::Idle => break,
+                                krill::server::scheduler::VerifStepOutcome::Processed { result, .. } => {
+                                    *ends.entry(result.to_string()).or_default() += 1;
+                                }
+                                krill::server::scheduler::VerifStepOutcome::Fatal(f) => {
+                                    return Ok(json!({"fatal": f}));
+                                }
+                            }
+                            n += 1;
+                            if n > 500 {
+                                return Err("stand-in: more than 500 steps".into());
+                            }
+                        }
+                    } else {
+                        let (tx, rx) = std::sync::mpsc::channel::<()>();
+                        let slow = w.slow.clone();
+                        let fatal: std::sync::Arc<std::sync::Mutex<Option<String>>> = Default::default();
+                        let h = std::thread::spawn(move || {
+                            krill::server::scheduler::verif_run(slow, rx);
+                        });
+                        // real time: wait until nothing is due and nothing runs
+                        let t0 = std::time::Instant::now();
+                        let mut stable = 0;
+                        loop {
+                            clock::real_sleep_ms(50);
+                            let due = w.next_due_in().map(|d| d <= 0).unwrap_or(false);
+                            let running = !w.running_tasks().is_empty();
+                            if !due && !running { stable += 1 } else { stable = 0 }
+                            if stable >= 6 || h.is_finished() {
+                                break;
+                            }
+                            if t0.elapsed().as_secs() > 60 {
+                                break;
+                            }
+                        }
+                        let stuck = !w.running_tasks().is_empty();
+                        let still_due = w.next_due_in().map(|d| d <= 0).unwrap_or(false);
+                        let _ = tx.send(());
+                        if !stuck || h.is_finished() {
+                            if let Err(p) = h.join() {
+                                *fatal.lock().unwrap() = Some(crate::e1::panic_message(&p));
+                            }
+                        }
+                        if let Some(f) = fatal.lock().unwrap().clone() {
+                            return Ok(json!({"loop_died": f, "view": drained_view(&w)}));
+                        }
+                        if still_due && !stuck {
+                            return Ok(json!({"not_drained": true, "view": drained_view(&w)}));
+                        }
+                    }
+                    Ok(json!({"view": drained_view(&w), "ends": ends}))
+                }));
+                let v = match r {
+                    Ok(Ok(v)) => v,
+                    Ok(Err(e)) => json!({"machinery": e}),
+                    Err(p) => json!({"panic": crate::e1::panic_message(&p)}),
+                };
+                let _ = std::fs::write(&vf, serde_json::to_vec(&v).unwrap());
+                unsafe { libc::_exit(0) };
+            }
+            let mut st = 0;
+            unsafe { libc::waitpid(pid, &mut st, 0) };
+            let v: serde_json::Value = std::fs::read(&vf)
+                .ok()
+                .and_then(|b| serde_json::from_slice(&b).ok())
+                .unwrap_or_else(|| json!({"machinery": format!("twin {twin}: no result (status {st:#x})")}));
+            if twin == "stand-in" {
+                results_a = v["ends"].clone();
+            }
+            views.push(v);
+            let _ = std::fs::remove_dir_all(&dir);
+            let _ = std::fs::remove_file(&vf);
+        }
+        Ok(json!({"due_before": due_before, "stand_in": views[0], "real_loop": views[1], "ends": results_a}))
+    })();
+    let v = match res {
+        Ok(v) => v,
+        Err(e) => json!({"machinery": e}),
+    };
+    let _ = std::fs::write(outf, serde_json::to_vec(&v).unwrap());
+}
+
+/// Runs the scenarios (parallel children). A difference between the two
+/// drained views is reported against C09: the follow-ups of committed changes
+/// are then not executed by the daemon's loop the way every other check
+/// (which drives the stand-in) has validated them.
+pub fn loop_conformance(out: &mut Outcome, thorough: bool) -> serde_json::Value {
+    let scenarios = loop_scenarios(thorough);
+    let root = e1run::scratch_root().with_extension("loop");
+    let _g = e1run::ScratchGuard(root.clone());
+    let _ = std::fs::remove_dir_all(&root);
+    let mut pids = Vec::new();
+    for (i, (name, ops)) in scenarios.iter().enumerate() {
+        let dir = root.join(format!("s{i}"));
+        std::fs::create_dir_all(&dir).unwrap();
+        let outf = root.join(format!("s{i}.result"));
+        use std::io::Write;
+        let _ = std::io::stdout().flush();
+        let pid = unsafe { libc::fork() };
+        if pid == 0 {
+            std::env::set_current_dir(&dir).unwrap();
+            let _ = std::panic::catch_unwind(|| loop_scenario_child(ops, &outf));
+            unsafe { libc::_exit(0) };
+        }
+        pids.push((pid, outf, *name, ops.clone()));
+    }
+    let mut ends_total: BTreeMap<String, u64> = BTreeMap::new();
+    let mut compared = 0u64;
+    let mut samples = Vec::new();
+    for (pid, outf, name, ops) in pids {
+        let mut st = 0;
+        unsafe { libc::waitpid(pid, &mut st, 0) };
+        let v: serde_json::Value = std::fs::read(&outf)
+            .ok()
+            .and_then(|b| serde_json::from_slice(&b).ok())
+            .unwrap_or_else(|| json!({"machinery": format!("no result (status {st:#x})")}));
+        if let Some(m) = v.get("machinery") {
+            out.machinery_errors.push(format!("loop conformance '{name}': {m}"));
+            continue;
+        }
+        let a = &v["stand_in"];
+        let b = &v["real_loop"];
+        if let Some(m) = a.get("machinery").or(b.get("machinery")).or(a.get("panic")).or(a.get("fatal")) {
+            out.machinery_errors.push(format!("loop conformance '{name}': {m}"));
+            continue;
+        }
+        if let Some(o) = v["ends"].as_object() {
+            for (k, n) in o {
+                *ends_total.entry(k.clone()).or_default() += n.as_u64().unwrap_or(0);
+            }
+        }
+        compared += 1;
+        samples.push(json!({"scenario": name, "ops": ops, "due_before": v["due_before"], "task_ends_stand_in": v["ends"]}));
+        let mut problem: Option<(String, String)> = None;
+        if let Some(p) = b.get("panic").or(b.get("loop_died")) {
+            problem = Some(("died".into(), format!("the scheduler loop ended: {p}")));
+        } else if b.get("not_drained").is_some() {
+            problem = Some(("not-drained".into(), "due tasks are left although the scheduler loop has been idle".into()));
+        } else if a["view"] != b["view"] {
+            let mut d = Vec::new();
+            crate::checks::c06::diff_path_pub(&a["view"], &b["view"], "", &mut d);
+            problem = Some(("diverges".into(), format!("after the real scheduler loop went idle the state differs from the one the stand-in reaches from the same point (first: stand-in, second: real loop): {}", d.join("; "))));
+        }
+        if let Some((k, d)) = problem {
+            out.findings.push(Finding {
+                signature: format!("real-loop-{k}|{} @ {name}", crate::e1::normalize(&d)),
+                text: format!("real scheduler loop, scenario '{name}' (due before: {}): {d}", v["due_before"]),
+                replay: json!({"part": "loop", "scenario": name, "ops": ops, "kind": k, "detail": d}),
+            });
+        }
+    }
+    for k in ["done", "followup", "reschedule"] {
+        if ends_total.get(k).copied().unwrap_or(0) == 0 {
+            out.machinery_errors.push(format!("loop conformance: no task ended as '{k}' in any scenario (vacuous)"));
+        }
+    }
+    json!({"scenarios_compared": compared, "task_ends": ends_total, "samples": samples})
+}
+
 pub fn run(tier: &Tier, args: &[String]) -> i32 {
     let mut out = Outcome::new("C09", tier, "model_checking");
     out.assumptions = vec![
@@ -898,6 +1156,7 @@ pub fn run(tier: &Tier, args: &[String]) -> i32 {
     let w_states = wc["states"].as_u64().unwrap_or(0);
     let w_trans = wc["transitions"].as_u64().unwrap_or(0);
     let (real_cases, real_samples) = real_startup_cases(&mut out, tier.thorough);
+    let loop_cov = loop_conformance(&mut out, tier.thorough);
     let mut samples = q.samples.clone();
     samples.extend(tsamples);
     samples.extend(real_samples);
@@ -916,6 +1175,7 @@ pub fn run(tier: &Tier, args: &[String]) -> i32 {
                           "startups_by_number_of_running_tasks": startup_hist},
         "world": wc,
         "real_startup_cases": real_cases,
+        "real_loop_vs_stand_in": loop_cov,
         "explanation": "counters[6..9] of the world run = restarts exercised with 0,1,2,3+ tasks in the running state",
     });
     out.finish()
